@@ -78,6 +78,23 @@ def check(pid, tier, seed, replay=None):
             script = json.loads(recs[ri][0])
             v.violation("schedule %s: %s leaves the contract (one intact, stable Write per event)" % (script["id"], json.dumps(e)),
                         {"property": pid, "script": script, "recording": [json.loads(x) for x in recs[ri][1]][max(0, k - 40):k + 3], "bad_line": k + 1})
+        # conformance (never a verdict): the implementation-level records of every schedule that uses ONE SyncWriter at most
+        # must be a behaviour of EventLife.tla, object by object; the model's invariants are evaluated along the real schedule
+        conformance = {"recordings": 0, "drifted": 0, "first": None}
+        for syncv in (False, True):
+            sel = [i for i, (sl, _) in enumerate(recs) if json.loads(sl)["sync"] == syncv and not json.loads(sl).get("wrap")]
+            if not sel:
+                continue
+            cb = validate_sharded(sc.dir, "EventLifeTrace", "conc.ndjson", [recs[i][1] for i in sel], NCPU, FAMILY,
+                                  constants=" G = 8\n K = 99\n Sync = %s\n Shapes = %s\n DiscardPuts = FALSE" % ("TRUE" if syncv else "FALSE", SHAPES))
+            conformance["recordings"] += len(sel)
+            conformance["drifted"] += len({ri for ri, _, _, _ in cb})
+            if cb and conformance["first"] is None:
+                ri, k, e, sig = cb[0]
+                conformance["first"] = {"script": json.loads(recs[sel[ri]][0])["id"], "line": k + 1, "record": e, "kind": sig}
+        if conformance["drifted"]:
+            log("%s: MODEL DRIFT: %d of %d recordings are not behaviours of EventLife (no verdict); first: %s" % (pid, conformance["drifted"], conformance["recordings"], conformance["first"]))
+        log("%s: conformance to EventLife %.0fs" % (pid, time.time() - t0))
         skipped = sum(json.loads(rr[-1]).get("skipped", 0) for _, rr in recs if rr)
         if not replay:
             rb = go_build("./players/log_race", sc.path("log-race-bin"), race=True)
@@ -93,9 +110,9 @@ def check(pid, tier, seed, replay=None):
                     v.violation("real goroutines: " + b, {"property": pid, "kind": "race", "report": b})
         samples = [{"script": json.loads(s), "recording": [json.loads(x) for x in rr][:16]} for s, rr in recs[:2]]
         cov = {"states": max(1, stats["states"]), "transitions": max(1, stats["transitions"]), "traces_validated_against_impl": len(recs), "samples": samples,
-               "model": stats, "schedules": len(scripts), "scripted_steps_not_enabled_on_real_code": skipped, "exhaustive": False,
+               "model": stats, "schedules": len(scripts), "conformance_to_EventLife": conformance, "scripted_steps_not_enabled_on_real_code": skipped, "exhaustive": False,
                "events_validated": sum(1 for _, rr in recs for x in rr if '"a":"EvEnd"' in x),
-               "checker_cmd": "tlc EventLife.tla (SingleOwner, StableDuringWrite, NoOverlapUnderSync, PoolBalanced); tlc LogConcTrace.tla"}
+               "checker_cmd": "tlc EventLife.tla (SingleOwner, StableDuringWrite, NoOverlapUnderSync, PoolBalanced); tlc LogConcTrace.tla; tlc EventLifeTrace.tla (conformance)"}
         write_evidence(pid, tier, seed, "model_checking", cov, time.time() - t0, len(v.violations),
                        assumptions=["vsync.Pool (deterministic LIFO) stands in for sync.Pool: any reuse order sync.Pool may choose is allowed by its contract; LIFO maximises reuse",
                                     "the race detector run is an auxiliary observation, not decided by a specification"])
